@@ -361,7 +361,7 @@ func draw(t *rapid.T) Case {
 	var cs Case
 	n := rapid.IntRange(0, 6).Draw(t, "n")
 	for i := 0; i < n; i++ {
-		cs.Toks = append(cs.Toks, tok.Gen(t, tok.GenCfg{Algs: keys.AllAlgs, NoTopNull: true, OnlyFuture: true, Values: val.Cfg{Depth: 1, MaxLen: 2, SafeInts: true, NoFloat: true}}))
+		cs.Toks = append(cs.Toks, tok.Gen(t, tok.GenCfg{Algs: keys.AllAlgs, NoTopNull: true, OnlyFuture: true, Values: val.Cfg{Depth: 1, MaxLen: 2, SafeInts: true, NoFloat: true, Big: true}}))
 	}
 	cs.Order = rapid.SliceOfN(rapid.IntRange(0, 5), 1, 6).Draw(t, "order")
 	cs.Format = rapid.SampledFrom(ctr.Formats).Draw(t, "format")
@@ -416,3 +416,122 @@ func TestVariantMatrix(t *testing.T) {
 		}
 	}
 }
+
+// ---------- concurrent writers / readers (race-detector build) ----------
+
+type ConcCase struct {
+	Toks       []tok.Tok `json:"toks"`
+	Goroutines int       `json:"goroutines"`
+}
+
+func runConc(c *h.Ctx, cc ConcCase) {
+	var sealed []sealedTok
+	for _, d := range cc.Toks {
+		tk, priv, err := tok.Build(d)
+		if err != nil {
+			continue
+		}
+		data, id, err := tk.ToSealed(priv)
+		if err != nil {
+			continue
+		}
+		if _, _, err := token.FromSealed(data); err != nil {
+			continue
+		}
+		v, _ := tok.ViewOf(tk)
+		sealed = append(sealed, sealedTok{d, data, id, v})
+	}
+	if len(sealed) == 0 {
+		return
+	}
+	var want []string
+	for _, s := range sealed {
+		want = append(want, ctr.RefCID(s.data).String())
+	}
+	sort.Strings(want)
+	uniq := want[:0]
+	for i, w := range want {
+		if i == 0 || w != want[i-1] {
+			uniq = append(uniq, w)
+		}
+	}
+	bad := make(chan string, 16)
+	report := func(s string) {
+		select {
+		case bad <- s:
+		default:
+		}
+	}
+	// one shared reader, iterated by everybody, plus private write/read round trips
+	w0 := container.NewWriter()
+	for _, s := range sealed {
+		w0.AddSealed(s.id, s.data)
+	}
+	b0, _ := w0.ToCar()
+	shared, err := container.FromCar(b0)
+	if err != nil {
+		c.Fail("C17/honest-rejected/car", "honest CAR rejected: %v", err)
+		return
+	}
+	if pv := h.Concurrently(cc.Goroutines, func(g int) {
+		for r := 0; r < 3; r++ {
+			format := ctr.Formats[(g+r)%4]
+			w := container.NewWriter()
+			for _, s := range sealed {
+				w.AddSealed(s.id, s.data)
+			}
+			out, err := write(w, format, (g+r)%2 == 0)
+			if err != nil {
+				report("write failed under concurrency: " + err.Error())
+				continue
+			}
+			keep := append([]byte{}, out...)
+			rd, err := read(out, format, r%2 == 0)
+			if err != nil {
+				report(format + ": honest container rejected under concurrency: " + err.Error())
+				continue
+			}
+			if fmt.Sprint(keyset(rd)) != fmt.Sprint(uniq) {
+				report(format + ": wrong key set under concurrency")
+			}
+			if !bytes.Equal(keep, out) {
+				report(format + ": writer output changed while other goroutines were writing")
+			}
+			n := 0
+			for range shared.GetAllDelegations() {
+				n++
+			}
+			for range shared.GetAllInvocations() {
+				n++
+			}
+			if n != len(uniq) {
+				report("shared reader iteration yields a different number of tokens under concurrency")
+			}
+			for _, s := range sealed {
+				if tk, err := shared.GetToken(ctr.RefCID(s.data)); err != nil {
+					report("shared reader lost a token under concurrency")
+				} else if v, _ := tok.ViewOf(tk); tok.Diff(s.view, v) != "" {
+					report("shared reader returns a different token under concurrency")
+				}
+			}
+		}
+	}); pv != nil {
+		c.Fail("C17/concurrent/panic", "panic under concurrent container use: %v", pv)
+	}
+	close(bad)
+	for b := range bad {
+		c.Fail("C17/concurrent", "%s", b)
+	}
+	c.P.NonTrivial([]any{"conc", len(sealed), cc.Goroutines}, map[string]any{"mode": "concurrent", "tokens": len(sealed), "goroutines": cc.Goroutines})
+}
+
+var concProp = h.Define(P, "concurrent", func(t *rapid.T) ConcCase {
+	cc := ConcCase{Goroutines: rapid.IntRange(2, 8).Draw(t, "goroutines")}
+	n := rapid.IntRange(1, 4).Draw(t, "n")
+	for i := 0; i < n; i++ {
+		cc.Toks = append(cc.Toks, tok.Gen(t, tok.GenCfg{Algs: []keys.Alg{keys.Ed25519, keys.Ed25519, keys.P256}, NoTopNull: true, OnlyFuture: true, Values: val.Cfg{Depth: 1, MaxLen: 2, SafeInts: true, NoFloat: true, Big: true}}))
+	}
+	return cc
+}, runConc)
+
+func TestConcurrentContainers(t *testing.T) { concProp.Check(t) }
